@@ -163,19 +163,23 @@ impl Serializer {
 
     fn serialize_pattern<'s, S: Slice<'s>>(&mut self, pattern: &Pattern<S>) {
         let start_on_newline = pattern.starts_on_new_line();
+        // Continuation lines need an indent even when the first line stays inline.
+        let multiline = pattern.is_multiline();
 
         if start_on_newline {
             self.writer.newline();
-            self.writer.indent();
         } else {
             self.writer.write_literal(" ");
+        }
+        if multiline {
+            self.writer.indent();
         }
 
         for element in &pattern.elements {
             self.serialize_element(element);
         }
 
-        if start_on_newline {
+        if multiline {
             self.writer.dedent();
         }
     }
